@@ -173,3 +173,12 @@ for _p in ("C02", "C03", "C04"):
 # the result set of a lookup IS the K-nearest container: C02 also runs the container's engine
 PROPS["C02"]["engines"] = ["traversal", "metric"]
 PROPS["C02"]["rule"] = TRAV_RULE + " ; metric engine: K-nearest push sequences with equal-id / equal-address / equal-distance ties (see C18)"
+PROPS["C16"]["rule"] += (" ; write faults (lookups_fault.go): WriteTo failing per destination and query kind (a candidate / starting node / every IPv6 "
+                         "address / listed ghosts unwritable, only the announce_peer after a served get_peers, short writes, the i-th write of the run, "
+                         "every write), alone and with StopTraversing / Close / slow consumer / repetitions: a failed query write is an issued query "
+                         "that never gets a response, a failed announce_peer write is reported with its destination and token; the lookup must end "
+                         "within the engine's bound with Peers closed, Finished fired, no transaction or goroutine left")
+PROPS["C12"]["rule"] += (" ; busy consumer (lookups_fault.go): getput.Get under a caller context whose logger handler blocks (released only when the "
+                         "network is idle) or sleeps, while the remaining in-flight gets are answered stale-first / fresh-first / freshest-last, also "
+                         "with a ctx cancel meanwhile and for an immutable target: the result is the highest verified seq served")
+PROPS["C14"]["rule"] += " ; lookups engine with socket write faults for bootstrap / announce / get / put (see C16)"
